@@ -58,6 +58,9 @@ def _write_data(sid_path: Path, data: Mapping[str, Any]) -> bool:
 
     data_path = get_data_json_path(sid_path)
 
+    # any Mapping is accepted: as a plain dictionary (json would otherwise dump a non-dict Mapping as ONE string, via default=str)
+    data = dict(data)
+
     try:
         # if there is already data, we load and update it
         if data_path.exists():
